@@ -106,9 +106,10 @@ def continuation(n: int, tail: str, at_eof: bool) -> bool:
     return hx.ok((lexer.errors == []) == ok_cont and lexer.cur_indent == cur)
 
 
-@hx.harness(props=['C11'], targets=['stone.frontend.lexer:Lexer.t_INITIAL_comment'], items=LEVELS,
+@hx.harness(props=['C11'], targets=['stone.frontend.lexer:Lexer.t_INITIAL_comment'],
+            items=['%s/%d' % (lv, nl) for lv in LEVELS for nl in (1, 2, 4)],
             bound='comment of <= 2 chars over {a, #, space} after 0..4 spaces following either a newline (full-line '
-                  'comment) or a token character (trailing comment); next line: 0..%d spaces + content; level 0..%d'
+                  'comment) or a token character (trailing comment), followed by 1, 2 or 4 newlines; next line: 0..%d spaces + content; level 0..%d'
                   % (MAXN, MAXC), outside=_OUT, budget=(200, 600))
 def comment_newlines(pad: int, body: str, trailing: bool, n: int) -> bool:
     """
@@ -122,7 +123,8 @@ def comment_newlines(pad: int, body: str, trailing: bool, n: int) -> bool:
     lexer.cur_indent = cur
     lexer.errors = []
     head = ('x' if trailing else 'x\n') + ' ' * pad
-    comment = '#' + body + '\n'
+    nl = int(hx.ITEM.split('/')[1])
+    comment = '#' + body + '\n' * nl           # the comment token swallows the blank lines that follow it
     data = head + comment + ' ' * n + 'y\n'
     fake = types.SimpleNamespace(lexdata=data, lineno=1)
     tok = lx._create_token('comment', comment, 1, len(head))
